@@ -1,9 +1,15 @@
 package main
 
-// family (c): firing.  Jobs computed from the wall clock on a warm node (its
-// first tick is past) and on a node started a moment ago.  The verdict uses
-// only the actionTime values the scheduler passed to the actions; wall-clock
-// waits are watchdogs (expiry = inconclusive).
+// family (c): firing.  One node, started with the program.  Jobs computed from
+// the wall clock are added in batches: batch "fresh" before the node's first
+// tick, batch "warm" right after the first observed minute boundary (thorough:
+// one more after the second).  Every batch contains jobs whose state is changed
+// ACROSS a tick (disabled -> tick -> enabled, enabled -> tick -> disabled /
+// removed, added late ...).  The verdict uses only the actionTime values the
+// scheduler passed to the actions; wall-clock waits are watchdogs (expiry =
+// inconclusive).  The family runs beside the grammar / schedule families and
+// pauses their workers around each boundary (gate) so that the goroutine count
+// is a usable quiescence signal.
 
 import (
 	"fmt"
@@ -11,6 +17,7 @@ import (
 	"runtime"
 	"sort"
 	"strings"
+	"sync"
 	"time"
 
 	"ergo.services/ergo/gen"
@@ -21,82 +28,96 @@ import (
 
 const (
 	modeOn          = "on"
-	modeDisabled    = "disabled"     // added, then DisableJob
-	modeRemoved     = "removed"      // added, then RemoveJob
-	modeReenabled   = "reenabled"    // added, DisableJob, EnableJob
-	modeLateDisable = "late-disable" // DisableJob after the first boundary
-	modeLateEnable  = "late-enable"  // added + disabled; EnableJob after the first boundary
-	modeLateRemove  = "late-remove"  // RemoveJob after the first boundary
-	modeLateAdd     = "late-add"     // AddJob after the first boundary
-	// warm node only: added when the node started (before its first tick) ...
-	modePreEnable  = "pre-enable"  // ... and disabled at once; EnableJob during the set-up
-	modePreDisable = "pre-disable" // ... left running; DisableJob during the set-up (it is in the spool by then)
-	modePreRemove  = "pre-remove"  // ... left running; RemoveJob during the set-up
+	modeDisabled    = "disabled"            // added, then DisableJob
+	modeRemoved     = "removed"             // added, then RemoveJob
+	modeReenabled   = "reenabled"           // added, DisableJob, EnableJob (no tick between)
+	modeLateDisable = "late-disable"        // enabled over one boundary, then DisableJob
+	modeLateEnable  = "late-enable"         // added + disabled, one boundary passes while disabled, then EnableJob
+	modeLateRemove  = "late-remove"         // enabled over one boundary, then RemoveJob
+	modeLateAdd     = "late-add"            // AddJob only after the batch's first boundary
+	modeLateEnDis   = "late-enable-disable" // added + disabled, boundary, EnableJob + DisableJob: never runs
+	modeLateDisEn   = "late-disable-enable" // enabled, boundary, DisableJob + EnableJob: runs at every boundary
 )
 
-var preJobs = []*fjob{
-	{kind: "pre-enable", spec: "* * * * *", loc: time.UTC, mode: modePreEnable},
-	{kind: "pre-disable", spec: "* * * * *", loc: time.UTC, mode: modePreDisable},
-	{kind: "pre-remove", spec: "* * * * *", loc: time.UTC, mode: modePreRemove},
-}
-
-var warmRec = &recorder{}
-var warmPreErr = map[string]error{}
-
-// prepWarm adds the pre-* jobs right after the warm node started
-func prepWarm(warm *hk.HNode) {
-	if !firingWanted() {
-		return
-	}
-	cron := warm.Cron()
-	for _, j := range preJobs {
-		j.rs, _ = refParse(j.spec)
-		name := gen.Atom(j.kind)
-		err, p := safeAddJob(cron, gen.CronJob{Name: name, Spec: j.spec, Location: j.loc, Action: recAction{warmRec}})
-		if p != "" {
-			err = fmt.Errorf("panic: %s", p)
-		}
-		if err == nil && j.mode == modePreEnable {
-			err = cron.DisableJob(name)
-		}
-		if err != nil {
-			warmPreErr[j.kind] = err
-		}
-	}
-}
-
 type fjob struct {
-	kind string
-	spec string
-	loc  *time.Location
-	mode string
-	msg  bool
-	rs   *refSpec
+	kind  string
+	batch string // fresh | warm | warm2
+	phase int    // index of the first boundary the batch can see
+	spec  string
+	loc   *time.Location
+	mode  string
+	msg   bool
+	rs    *refSpec
+
+	nextZero bool // Cron.Info().Next was the zero time when the job was added
+	err      error
 }
 
+func (j *fjob) name() gen.Atom { return gen.Atom(j.batch + "-" + j.kind) }
+
+// active: is the job present and enabled at boundary k
 func (j *fjob) active(k int) bool {
+	kk := k - j.phase
+	if kk < 0 {
+		return false
+	}
 	switch j.mode {
-	case modeOn, modeReenabled, modePreEnable:
+	case modeOn, modeReenabled, modeLateDisEn:
 		return true
 	case modeLateDisable, modeLateRemove:
-		return k == 0
+		return kk == 0
 	case modeLateEnable, modeLateAdd:
-		return k >= 1
+		return kk >= 1
 	}
 	return false
 }
 
-type fnode struct {
-	label         string
-	node          *hk.HNode
-	rec           *recorder
-	probe         gen.PID
-	inst          *actors.Inst
-	nextZeroAtAdd bool
-	wrongNode     int
-	jobs          []*fjob
-	addErr        map[string]error
+// ---------- gate: pauses the workers of the other families around a boundary ----------
+
+var gate = struct {
+	mu     sync.Mutex
+	cond   *sync.Cond
+	paused bool
+	active int
+}{}
+
+func init() { gate.cond = sync.NewCond(&gate.mu) }
+
+func gateEnter() {
+	gate.mu.Lock()
+	for gate.paused {
+		gate.cond.Wait()
+	}
+	gate.active++
+	gate.mu.Unlock()
 }
+
+func gateLeave() {
+	gate.mu.Lock()
+	gate.active--
+	gate.mu.Unlock()
+}
+
+// gatePause stops new tasks and waits (watchdog d) until the running ones are done
+func gatePause(d time.Duration) bool {
+	gate.mu.Lock()
+	gate.paused = true
+	gate.mu.Unlock()
+	return hk.WaitUntil(d, func() bool {
+		gate.mu.Lock()
+		defer gate.mu.Unlock()
+		return gate.active == 0
+	})
+}
+
+func gateResume() {
+	gate.mu.Lock()
+	gate.paused = false
+	gate.cond.Broadcast()
+	gate.mu.Unlock()
+}
+
+// ---------- jobs ----------
 
 func mustLoc(name string) *time.Location {
 	l, err := time.LoadLocation(name)
@@ -111,7 +132,8 @@ func exactSpec(u int64, loc *time.Location) string {
 	return fmt.Sprintf("%d %d %d %d *", mi, h, d, mo)
 }
 
-func buildJobs(b []int64) []*fjob {
+// buildJobs: the batch that is added before boundary b[0]; b[1:] are the later boundaries it can see
+func buildJobs(batch string, phase int, b []int64) []*fjob {
 	kol, cha, ber := mustLoc("Asia/Kolkata"), mustLoc("Pacific/Chatham"), mustLoc("Europe/Berlin")
 	ny, lh := mustLoc("America/New_York"), mustLoc("Australia/Lord_Howe")
 	b0 := b[0]
@@ -119,8 +141,7 @@ func buildJobs(b []int64) []*fjob {
 	_, _, dLh, _, _, wdLh, _ := civilOf(b0, lh)
 	_, moU, _, _, miU, _, _ := civilOf(b0, time.UTC)
 	_, _, _, hKol, _, _, _ := civilOf(b0, kol)
-	_, _, dNy, _, _, wdNy, _ := civilOf(b0, ny)
-	_ = dNy
+	_, _, _, _, _, wdNy, _ := civilOf(b0, ny)
 	otherDay := dLh%28 + 1
 	jobs := []*fjob{
 		{kind: "coming-minute", spec: exactSpec(b0, kol), loc: kol, mode: modeOn},
@@ -146,15 +167,22 @@ func buildJobs(b []int64) []*fjob {
 		{kind: "month-other", spec: fmt.Sprintf("* * * %d *", moU%12+1), loc: time.UTC, mode: modeOn},
 	}
 	if len(b) > 1 {
+		// state changes across the tick of b[0]; judged at b[1]...
 		jobs = append(jobs,
 			&fjob{kind: "late-disable", spec: "* * * * *", loc: kol, mode: modeLateDisable},
+			&fjob{kind: "late-disable-msg", spec: "* * * * *", loc: ber, mode: modeLateDisable, msg: true},
 			&fjob{kind: "late-enable", spec: "* * * * *", loc: cha, mode: modeLateEnable},
+			&fjob{kind: "late-enable-exact", spec: exactSpec(b[1], ny), loc: ny, mode: modeLateEnable},
+			&fjob{kind: "late-enable-msg", spec: "* * * * *", loc: kol, mode: modeLateEnable, msg: true},
 			&fjob{kind: "late-remove", spec: "* * * * *", loc: ber, mode: modeLateRemove},
+			&fjob{kind: "late-enable-disable", spec: "* * * * *", loc: lh, mode: modeLateEnDis},
+			&fjob{kind: "late-disable-enable", spec: "* * * * *", loc: time.UTC, mode: modeLateDisEn},
 			&fjob{kind: "late-add-every", spec: "* * * * *", loc: lh, mode: modeLateAdd},
 			&fjob{kind: "late-add-exact-last", spec: exactSpec(b[len(b)-1], cha), loc: cha, mode: modeLateAdd},
 		)
 	}
 	for _, j := range jobs {
+		j.batch, j.phase = batch, phase
 		rs, cls := refParse(j.spec)
 		if cls != clsValid {
 			fmt.Fprintf(os.Stderr, "harness: firing spec %q is %s\n", j.spec, cls)
@@ -165,6 +193,15 @@ func buildJobs(b []int64) []*fjob {
 	return jobs
 }
 
+type fnode struct {
+	node      *hk.HNode
+	rec       *recorder
+	probe     gen.PID
+	inst      *actors.Inst
+	wrongNode int
+	jobs      []*fjob
+}
+
 func (fn *fnode) action(j *fjob) gen.CronAction {
 	if j.msg {
 		return gen.CreateCronActionMessage(fn.probe, gen.MessagePriorityNormal)
@@ -172,16 +209,9 @@ func (fn *fnode) action(j *fjob) gen.CronAction {
 	return recAction{fn.rec}
 }
 
-func (fn *fnode) setup(b []int64) error {
+func (fn *fnode) spawnProbe() error {
 	fn.rec = &recorder{}
-	fn.addErr = map[string]error{}
-	if fn.label == "warm" {
-		fn.rec = warmRec
-		for k, e := range warmPreErr {
-			fn.addErr[k] = e
-		}
-	}
-	factory, inst := actors.NewProbe("cron-probe-"+fn.label, &actors.Hooks{
+	factory, inst := actors.NewProbe("cron-probe", &actors.Hooks{
 		Msg: func(p *actors.Probe, from gen.PID, msg any) error {
 			if m, ok := msg.(gen.MessageCron); ok {
 				if m.Node != fn.node.Name() {
@@ -197,100 +227,69 @@ func (fn *fnode) setup(b []int64) error {
 		return err
 	}
 	fn.probe, fn.inst = pid, inst
-	fn.jobs = buildJobs(b)
-	cron := fn.node.Cron()
-	fn.nextZeroAtAdd = cron.Info().Next.IsZero()
-	if fn.label == "warm" {
-		fn.jobs = append(fn.jobs, preJobs...)
-	}
-	for _, j := range fn.jobs {
-		if j.rs == nil || j.mode == modeLateAdd {
-			continue
-		}
-		name := gen.Atom(j.kind)
-		if fn.addErr[j.kind] != nil {
-			continue
-		}
-		switch j.mode {
-		case modePreEnable:
-			if err := cron.EnableJob(name); err != nil {
-				fn.addErr[j.kind] = err
-			}
-			continue
-		case modePreDisable:
-			if err := cron.DisableJob(name); err != nil {
-				fn.addErr[j.kind] = err
-			}
-			continue
-		case modePreRemove:
-			if err := cron.RemoveJob(name); err != nil {
-				fn.addErr[j.kind] = err
-			}
-			continue
-		}
-		if err, p := safeAddJob(cron, gen.CronJob{Name: name, Spec: j.spec, Location: j.loc, Action: fn.action(j)}); err != nil || p != "" {
-			if p != "" {
-				err = fmt.Errorf("panic: %s", p)
-			}
-			fn.addErr[j.kind] = err
-			continue
-		}
-		switch j.mode {
-		case modeDisabled, modeLateEnable:
-			fn.addErr[j.kind] = cron.DisableJob(name)
-		case modeRemoved:
-			fn.addErr[j.kind] = cron.RemoveJob(name)
-		case modeReenabled:
-			if err := cron.DisableJob(name); err != nil {
-				fn.addErr[j.kind] = err
-			} else {
-				fn.addErr[j.kind] = cron.EnableJob(name)
-			}
-		}
-		if fn.addErr[j.kind] == nil {
-			delete(fn.addErr, j.kind)
-		}
-	}
 	return nil
 }
 
-func (fn *fnode) lateOps() {
+func (fn *fnode) add(j *fjob) error {
 	cron := fn.node.Cron()
-	for _, j := range fn.jobs {
-		if j.rs == nil {
-			continue
-		}
-		name := gen.Atom(j.kind)
-		var err error
-		switch j.mode {
-		case modeLateDisable:
-			err = cron.DisableJob(name)
-		case modeLateEnable:
-			err = cron.EnableJob(name)
-		case modeLateRemove:
-			err = cron.RemoveJob(name)
-		case modeLateAdd:
-			var p string
-			err, p = safeAddJob(cron, gen.CronJob{Name: name, Spec: j.spec, Location: j.loc, Action: fn.action(j)})
-			if p != "" {
-				err = fmt.Errorf("panic: %s", p)
-			}
-		}
-		if err != nil {
-			fn.addErr[j.kind] = err
-		}
+	j.nextZero = cron.Info().Next.IsZero()
+	err, p := safeAddJob(cron, gen.CronJob{Name: j.name(), Spec: j.spec, Location: j.loc, Action: fn.action(j)})
+	if p != "" {
+		err = fmt.Errorf("panic: %s", p)
 	}
+	return err
 }
 
-func goroutineFloor() int {
-	m := runtime.NumGoroutine()
-	for i := 0; i < 40; i++ {
-		time.Sleep(time.Millisecond)
-		if n := runtime.NumGoroutine(); n < m {
-			m = n
+// ops performs the operations due at point p: p = 0 before the first boundary,
+// p = k+1 after boundary k has been observed.
+func (fn *fnode) ops(p int) {
+	cron := fn.node.Cron()
+	first := func(errs ...error) error {
+		for _, e := range errs {
+			if e != nil {
+				return e
+			}
+		}
+		return nil
+	}
+	for _, j := range fn.jobs {
+		if j.rs == nil || j.err != nil {
+			continue
+		}
+		n := j.name()
+		switch {
+		case j.phase == p: // the batch's set-up
+			if j.mode == modeLateAdd {
+				continue
+			}
+			if j.err = fn.add(j); j.err != nil {
+				continue
+			}
+			switch j.mode {
+			case modeDisabled, modeLateEnable, modeLateEnDis:
+				j.err = cron.DisableJob(n)
+			case modeRemoved:
+				j.err = cron.RemoveJob(n)
+			case modeReenabled:
+				j.err = first(cron.DisableJob(n), cron.EnableJob(n))
+			}
+		case j.phase == p-1: // one boundary of the batch has passed
+			switch j.mode {
+			case modeLateDisable:
+				j.err = cron.DisableJob(n)
+			case modeLateEnable:
+				j.err = cron.EnableJob(n)
+			case modeLateRemove:
+				j.err = cron.RemoveJob(n)
+			case modeLateAdd:
+				j.err = fn.add(j)
+			case modeLateEnDis:
+				j.err = first(cron.EnableJob(n), cron.DisableJob(n))
+			case modeLateDisEn:
+				j.err = first(cron.DisableJob(n), cron.EnableJob(n))
+			}
 		}
 	}
-	return m
 }
 
 func firingWanted() bool {
@@ -298,56 +297,63 @@ func firingWanted() bool {
 	return o == "" || strings.HasPrefix(o, "F/")
 }
 
-func runFiring(warm *hk.HNode) {
+var batchNames = []string{"fresh", "warm", "warm2"}
+
+// runFiring runs beside the other families (see gate)
+func runFiring() {
 	if !firingWanted() {
 		return
 	}
-	nb := hk.Pick(1, 3)
+	nb := hk.Pick(2, 3)
+	lead := time.Duration(hk.Pick(12, 45)) * time.Second // the other families stop taking tasks this long before a boundary
 	inconclusiveAll := func(why string) {
 		hk.Emit(hk.Case{ID: "F/all", Scenario: "firing", Verdict: hk.Inconclusive, What: why})
 	}
-	// the warm node must have had its first tick
-	if !hk.WaitUntil(80*time.Second, func() bool { return !warm.Cron().Info().Next.IsZero() }) {
-		inconclusiveAll("watchdog: the warm node never ticked (Info().Next still zero after 80 s)")
-		return
-	}
 	// leave room for the set-up before the boundary
-	if s := time.Now().Second(); s >= 45 {
+	if s := time.Now().Second(); s >= 53 {
 		time.Sleep(time.Duration(61-s) * time.Second)
 	}
 	start := time.Now()
-	if !hk.WaitUntil(10*time.Second, func() bool { return warm.Cron().Info().Next.After(start) }) {
-		inconclusiveAll("watchdog: the warm node's scheduler is behind the wall clock")
-		return
-	}
 	b0 := start.Truncate(time.Minute).Add(time.Minute)
 	var b []int64
 	for k := 0; k < nb; k++ {
 		b = append(b, b0.Unix()+int64(60*k))
 	}
-	cold, err := hk.StartNode(hk.NodeCfg{Name: hk.UniqueName("c20cold"), Network: false})
+	// the node is started now: the first batch is added before its first tick
+	gateEnter()
+	node, err := hk.StartNode(hk.NodeCfg{Name: hk.UniqueName("c20fire"), Network: false})
+	gateLeave()
 	if err != nil {
 		inconclusiveAll("start node: " + err.Error())
 		return
 	}
-	nodes := []*fnode{{label: "warm", node: warm}, {label: "fresh", node: cold}}
-	for _, fn := range nodes {
-		if err := fn.setup(b); err != nil {
-			inconclusiveAll("set-up: " + err.Error())
-			return
-		}
+	fn := &fnode{node: node}
+	if err := fn.spawnProbe(); err != nil {
+		inconclusiveAll("set-up: " + err.Error())
+		return
 	}
+	// batches: batch p is added at point p and sees the boundaries b[p:]; the last boundary gets no batch of its own
+	// in thorough (three boundaries: fresh, warm, warm2 would need a fourth) - every batch sees >= 1 boundary
+	for p := 0; p < nb && p < len(batchNames); p++ {
+		fn.jobs = append(fn.jobs, buildJobs(batchNames[p], p, b[p:])...)
+	}
+	fn.ops(0)
 	if !time.Now().Before(b0.Add(-2 * time.Second)) {
 		inconclusiveAll("set-up was not finished 2 s before the minute boundary")
 		return
 	}
-	hk.Note("firing_setup", map[string]any{"first_boundary": b0.UTC().Format(time.RFC3339), "boundaries": nb,
-		"warm_next_zero_at_add": nodes[0].nextZeroAtAdd, "fresh_next_zero_at_add": nodes[1].nextZeroAtAdd})
-	floor := goroutineFloor()
+	hk.Note("firing_setup", map[string]any{"first_boundary": b0.UTC().Format(time.RFC3339), "boundaries": nb, "jobs": len(fn.jobs),
+		"next_zero_at_first_add": fn.jobs[0].nextZero})
 	crossed := 0
 	why := ""
 	for k := 0; k < nb; k++ {
 		bk := time.Unix(b[k], 0)
+		if d := time.Until(bk.Add(-lead)); d > 0 {
+			time.Sleep(d)
+		}
+		// quiet process around the boundary: no node is started or stopped, no worker runs
+		idle := gatePause(time.Until(bk.Add(-time.Second)))
+		floor := runtime.NumGoroutine()
 		wait := time.Until(bk) + 30*time.Second
 		ok := hk.WaitUntil(wait, func() bool {
 			if time.Now().Before(bk.Add(-300 * time.Millisecond)) {
@@ -357,46 +363,38 @@ func runFiring(warm *hk.HNode) {
 				}
 				return false
 			}
-			for _, fn := range nodes {
-				if !fn.node.Cron().Info().Next.After(bk) {
-					return false
-				}
-			}
-			return true
+			return fn.node.Cron().Info().Next.After(bk)
 		})
 		if !ok {
-			why = fmt.Sprintf("watchdog: a scheduler did not pass the boundary %s within 30 s of it", bk.UTC().Format(time.RFC3339))
+			why = fmt.Sprintf("watchdog: the scheduler did not pass the boundary %s within 30 s of it", bk.UTC().Format(time.RFC3339))
+			gateResume()
 			break
 		}
 		// every due job has been popped and its action goroutine created; wait until they are gone
-		if !hk.WaitUntil(15*time.Second, func() bool {
-			return runtime.NumGoroutine() <= floor && nodes[0].inst.Quiet() && nodes[1].inst.Quiet()
-		}) {
-			why = fmt.Sprintf("watchdog: action goroutines did not drain (goroutines %d > floor %d)", runtime.NumGoroutine(), floor)
+		if !hk.WaitUntil(15*time.Second, func() bool { return runtime.NumGoroutine() <= floor && fn.inst.Quiet() }) {
+			why = fmt.Sprintf("watchdog: action goroutines did not drain (goroutines %d > floor %d, other families idle=%v)", runtime.NumGoroutine(), floor, idle)
+			gateResume()
 			break
 		}
 		crossed++
-		if k == 0 && nb > 1 {
-			for _, fn := range nodes {
-				fn.lateOps()
-			}
-			if !time.Now().Before(time.Unix(b[1], 0).Add(-2 * time.Second)) {
-				why = "late operations were not finished 2 s before the second boundary"
+		if k+1 < nb {
+			fn.ops(k + 1)
+			if !time.Now().Before(time.Unix(b[k+1], 0).Add(-2 * time.Second)) {
+				why = "operations after a boundary were not finished 2 s before the next one"
+				gateResume()
 				break
 			}
-			floor = goroutineFloor()
 		}
+		gateResume()
 	}
 	// stop everything that could still fire
-	for _, fn := range nodes {
-		for _, j := range fn.jobs {
-			fn.node.Cron().RemoveJob(gen.Atom(j.kind))
-		}
+	for _, j := range fn.jobs {
+		fn.node.Cron().RemoveJob(j.name())
 	}
-	for _, fn := range nodes {
-		evaluateFiring(fn, b, crossed, why)
-	}
-	cold.StopForce()
+	evaluateFiring(fn, b, crossed, why)
+	gateEnter()
+	node.StopForce()
+	gateLeave()
 }
 
 func evaluateFiring(fn *fnode, b []int64, crossed int, why string) {
@@ -415,9 +413,6 @@ func evaluateFiring(fn *fnode, b []int64, crossed int, why string) {
 		if m > last {
 			continue // beyond the observed horizon
 		}
-		if m < b[0] && strings.HasPrefix(string(f.Job), "pre-") {
-			continue // the pre-* jobs of the warm node ran before the observed boundaries by design
-		}
 		k := string(f.Job)
 		if obs[k] == nil {
 			obs[k] = map[int64]int{}
@@ -433,22 +428,23 @@ func evaluateFiring(fn *fnode, b []int64, crossed int, why string) {
 	}
 	var dups int64
 	for _, j := range fn.jobs {
-		id := fmt.Sprintf("F/%s/%s", fn.label, j.kind)
+		id := fmt.Sprintf("F/%s/%s", j.batch, j.kind)
 		if !hk.Want(id) || j.rs == nil {
 			continue
 		}
+		seen := crossed - j.phase // boundaries of this batch that were judged
 		c := hk.Case{ID: id, Scenario: "firing", Key: id}
 		det := map[string]any{"spec": j.spec, "zone": j.loc.String(), "mode": j.mode, "message_action": j.msg,
-			"next_zero_when_added": fn.nextZeroAtAdd, "boundaries_crossed": crossed}
+			"next_zero_when_added": j.nextZero, "boundaries_judged": seen}
 		c.Detail = det
-		if e := fn.addErr[j.kind]; e != nil {
+		if j.err != nil {
 			c.Verdict = hk.Violated
 			c.Sig = "firing-job-api-error/" + j.mode
-			c.What = fmt.Sprintf("AddJob/EnableJob/DisableJob/RemoveJob for %q failed: %v", j.spec, e)
+			c.What = fmt.Sprintf("AddJob/EnableJob/DisableJob/RemoveJob for %q failed: %v", j.spec, j.err)
 			hk.Emit(c)
 			continue
 		}
-		if crossed == 0 {
+		if seen <= 0 {
 			c.Verdict = hk.Inconclusive
 			c.What = why
 			hk.Emit(c)
@@ -460,7 +456,7 @@ func evaluateFiring(fn *fnode, b []int64, crossed int, why string) {
 				exp = append(exp, b[k])
 			}
 		}
-		for m, n := range obs[j.kind] {
+		for m, n := range obs[string(j.name())] {
 			got = append(got, m)
 			if n > 1 {
 				dups += int64(n - 1)
@@ -485,8 +481,8 @@ func evaluateFiring(fn *fnode, b []int64, crossed int, why string) {
 				extra = append(extra, g)
 			}
 		}
-		c.Events = int64(len(got) + crossed)
-		c.Nontrivial = crossed >= 1
+		c.Events = int64(len(got) + seen)
+		c.Nontrivial = seen >= 1
 		det["expected"] = fmtM(exp)
 		det["fired"] = fmtM(got)
 		if len(missing)+len(extra) > 0 {
@@ -498,19 +494,21 @@ func evaluateFiring(fn *fnode, b []int64, crossed int, why string) {
 				}
 			}
 			switch {
-			case fn.nextZeroAtAdd && onlyFirst && j.mode != modeLateAdd && !strings.HasPrefix(j.mode, "pre-"):
+			case j.nextZero && onlyFirst && j.phase == 0:
 				// job added while Cron.Info().Next was the zero time; wrong only at the node's first tick
 				c.Sig = "next-zero-at-start"
-			case len(extra) > 0 && (j.mode == modeDisabled || j.mode == modeLateDisable || j.mode == modePreDisable):
+			case len(extra) > 0 && (j.mode == modeDisabled || j.mode == modeLateDisable || j.mode == modeLateEnDis):
 				c.Sig = "disabled-job-fired"
-			case len(extra) > 0 && (j.mode == modeRemoved || j.mode == modeLateRemove || j.mode == modePreRemove):
+			case len(extra) > 0 && (j.mode == modeRemoved || j.mode == modeLateRemove):
 				c.Sig = "removed-job-fired"
 			case len(extra) > 0:
 				c.Sig = "fired-at-non-matching-minute/" + j.kind
+			case j.mode == modeLateEnable || j.mode == modeLateDisEn || j.mode == modeReenabled:
+				c.Sig = "enabled-job-not-fired/" + j.mode
 			default:
 				c.Sig = "matching-minute-not-fired/" + j.kind
 			}
-			c.What = fmt.Sprintf("%s node, job %q (%s, %s): not fired at %v, fired though not due at %v", fn.label, j.spec, j.loc, j.mode, fmtM(missing), fmtM(extra))
+			c.What = fmt.Sprintf("batch %s, job %q (%s, %s): not fired at %v, fired though not due at %v", j.batch, j.spec, j.loc, j.mode, fmtM(missing), fmtM(extra))
 		}
 		if why != "" && c.Verdict != hk.Violated && crossed < len(b) {
 			det["note"] = "only " + fmt.Sprint(crossed) + " boundaries judged: " + why
